@@ -226,9 +226,37 @@ def _check_extension(ctx: Ctx) -> None:
         from0_all = True
         try:
             lists = {}
+            counts: Dict = {}
             for s_ in body:
                 if isinstance(s_, ast.Assign) and isinstance(s_.targets[0], ast.Name) and isinstance(s_.value, ast.List):
                     lists[s_.targets[0].id] = [piece_len(e) for e in s_.value.elts]
+                elif isinstance(s_, ast.For) and isinstance(s_.iter, ast.Call) and norm(s_.iter.func) == 'range' and len(s_.iter.args) == 1 \
+                        and not s_.orelse and all(isinstance(b, ast.Expr) and isinstance(b.value, ast.Call) and isinstance(b.value.func, ast.Attribute)
+                                                  and b.value.func.attr == 'append' and isinstance(b.value.func.value, ast.Name)
+                                                  and b.value.func.value.id in lists for b in s_.body):
+                    # `for _ in range(k): lst.append(piece)`: k copies of each appended piece
+                    k = T.from_ast(s_.iter.args[0], env)
+                    for b in s_.body:
+                        l, f0 = piece_len(b.value.args[0])
+                        lists[b.value.func.value.id].append((l * k, f0))
+                        counts[b.value.func.value.id] = counts.get(b.value.func.value.id, T.Term.const(0)) + k
+                elif isinstance(s_, ast.Assign) and isinstance(s_.targets[0], ast.Name) and any(
+                        isinstance(x, ast.Call) and norm(x.func) == 'len' and x.args and isinstance(x.args[0], ast.Name) and x.args[0].id in lists
+                        for x in ast.walk(s_.value)):
+                    # a size computed from the number of pieces collected so far
+                    class _L(ast.NodeTransformer):
+                        def visit_Call(self, c):
+                            self.generic_visit(c)
+                            if norm(c.func) == 'len' and c.args and isinstance(c.args[0], ast.Name) and c.args[0].id in lists:
+                                return ast.Name(id='__len_' + c.args[0].id, ctx=ast.Load())
+                            return c
+                    import copy as _copy
+                    v2 = ast.fix_missing_locations(_L().visit(_copy.deepcopy(s_.value)))
+                    for ln_, cnt_ in counts.items():
+                        env.vars['__len_' + ln_] = cnt_
+                    for ln_ in lists:
+                        env.vars.setdefault('__len_' + ln_, T.Term.const(len(lists[ln_])) if ln_ not in counts else counts[ln_])
+                    env.vars[s_.targets[0].id] = T.from_ast(v2, env)
                 elif isinstance(s_, ast.AugAssign) and isinstance(s_.op, ast.Mult) and isinstance(s_.target, ast.Name) and s_.target.id in lists:
                     k = T.from_ast(s_.value, env)
                     lists[s_.target.id] = [(l * k, f0) for l, f0 in lists[s_.target.id]]
